@@ -118,24 +118,28 @@ Proof.
     rewrite <- E, rev_involutive, sl_la. destruct (kv_get t kvs); reflexivity.
 Qed.
 
-Theorem eval_from_refines_rfc : forall p d,
-  forallb plain_tok p = true -> snd (ptr_eval_from p d) = rfc6901_eval p d.
+(* evaluation IS the RFC 6901 reference, for every pointer (no condition on the tokens any more) *)
+Theorem eval_from_is_rfc : forall p d, snd (ptr_eval_from p d) = rfc6901_eval p d.
 Proof.
-  induction p as [|t r IH]; intros d P; [reflexivity|].
-  simpl in P. apply andb_prop in P as [Pt Pr]. simpl.
+  induction p as [|t r IH]; intros d; [reflexivity|]. simpl.
   destruct d as [v|xs|kvs]; [reflexivity| |].
   - destruct (canon_index t) as [i|]; [|reflexivity].
     destruct (nth_error xs i) as [x|]; [|reflexivity].
-    specialize (IH x Pr). destruct (ptr_eval_from r x). simpl in *. exact IH.
-  - rewrite (child_plain _ _ Pt). destruct (kv_get t kvs) as [x|]; [|reflexivity].
-    specialize (IH x Pr). destruct (ptr_eval_from r x). simpl in *. exact IH.
+    specialize (IH x). destruct (ptr_eval_from r x). simpl in *. exact IH.
+  - destruct (kv_get t kvs) as [x|]; [|reflexivity].
+    specialize (IH x). destruct (ptr_eval_from r x). simpl in *. exact IH.
 Qed.
+
+Theorem eval_is_rfc p d : snd (ptr_eval p d) = rfc6901_eval p d.
+Proof. destruct p as [|t r]; [reflexivity|]. apply eval_from_is_rfc. Qed.
+
+Theorem eval_from_refines_rfc : forall p d,
+  forallb plain_tok p = true -> snd (ptr_eval_from p d) = rfc6901_eval p d.
+Proof. intros p d _. apply eval_from_is_rfc. Qed.
 
 Theorem eval_refines_rfc p d :
   forallb plain_tok p = true -> snd (ptr_eval p d) = rfc6901_eval p d.
-Proof.
-  destruct p as [|t r]; [reflexivity|]. apply eval_from_refines_rfc.
-Qed.
+Proof. intros _. apply eval_is_rfc. Qed.
 
 (* when the pointer resolves, the trail has one node per token and ends with the result *)
 Theorem eval_from_trail : forall p d tr n,
@@ -159,7 +163,7 @@ Proof.
   destruct d as [v|xs|kvs]; [discriminate| |].
   - destruct (canon_index t) as [i|]; [|discriminate].
     destruct (nth_error xs i) as [x|]; [|discriminate]. exact (Hstep x E).
-  - destruct (child t kvs) as [x|]; [|discriminate]. exact (Hstep x E).
+  - destruct (kv_get t kvs) as [x|]; [|discriminate]. exact (Hstep x E).
 Qed.
 
 (* no step is ever taken from a leaf, a missing member or an out-of-range index: the result is
